@@ -743,6 +743,9 @@ def setattr_(it, obj, name, v, node=None):
     if obj is None:
         raise PyExc('AttributeError', "'NoneType' object has no attribute %r" % name,
                     site=(getattr(node, 'lineno', None), 'none-attr'), kind='none-attr')
+    if isinstance(obj, FuncVal) and name in ('__name__', '__qualname__', '__doc__', '__module__'):
+        obj.__dict__.setdefault('meta', {})[name] = v       # naming metadata of a function object: no effect on what it computes
+        return
     raise Unsupported('setattr on %s' % type(obj).__name__)
 
 
